@@ -284,6 +284,9 @@ func arithExcluded(c Case, ns []refnum.Num, e expect, s shape) string {
 			anyBigInt = true
 		}
 	}
+	if c.Op == "decf" && len(ns) == 2 && isMin(ns[1]) {
+		anyBigInt = true // decf negates its delta first
+	}
 	for _, v := range e.interm {
 		if !v.IsInt() {
 			anyRatio = true
@@ -306,7 +309,13 @@ func arithExcluded(c Case, ns []refnum.Num, e expect, s shape) string {
 				return "gcd-lcm-fixnum-only"
 			}
 			// lcm multiplies in int64 before dividing
-			if c.Op == "lcm" && new(big.Int).Abs(n.R.Num()).BitLen() > 31 {
+		}
+		if c.Op == "lcm" { // lcm multiplies in int64 before dividing
+			prod := big.NewInt(1)
+			for _, n := range ns {
+				prod.Mul(prod, new(big.Int).Abs(n.R.Num()))
+			}
+			if prod.BitLen() > 62 {
 				return "gcd-lcm-fixnum-only"
 			}
 		}
@@ -494,7 +503,16 @@ func lossyPair(a, b refnum.Num) bool {
 	if rx == nil { // rounds to an infinity: compares like its sign against any finite float
 		return x.R.Sign() != x.R.Cmp(f.R)
 	}
-	return rx.Cmp(f.R) != x.R.Cmp(f.R)
+	if rx.Cmp(f.R) != x.R.Cmp(f.R) {
+		return true
+	}
+	if f.Kind == "single" { // direct rounding to single (fixnum operands) as well as via double (bignum, ratio)
+		f32, _ := x.R.Float32()
+		if !math.IsInf(float64(f32), 0) && new(big.Rat).SetFloat64(float64(f32)).Cmp(f.R) != x.R.Cmp(f.R) {
+			return true
+		}
+	}
+	return false
 }
 
 func closeMixed(ns []refnum.Num) bool {
@@ -506,6 +524,21 @@ func closeMixed(ns []refnum.Num) bool {
 		}
 	}
 	return false
+}
+
+// ratioBig: a ratio and an integer outside int64 among the operands (finding C05-F5: such a pair is
+// normalised to long-floats, also for comparisons).
+func ratioBig(ns []refnum.Num) bool {
+	r, b := false, false
+	for _, n := range ns {
+		if n.Kind == "ratio" {
+			r = true
+		}
+		if n.Kind == "int" && !n.R.Num().IsInt64() {
+			b = true
+		}
+	}
+	return r && b
 }
 
 func hasFloat(ns []refnum.Num) bool {
@@ -551,6 +584,10 @@ func runCmp(c Case) *h.Result {
 	}
 	if closeMixed(ns) && h.ExclOn("cmp-through-float") {
 		res.Skip = "cmp-through-float"
+		return res
+	}
+	if ratioBig(ns) && h.ExclOn("ratio-bignum-longfloat") {
+		res.Skip = "ratio-bignum-longfloat"
 		return res
 	}
 	scope := slip.NewScope()
@@ -622,6 +659,10 @@ func runTri(c Case) *h.Result {
 	res := &h.Result{NonTrivial: ns[0].Kind != ns[1].Kind || !ns[0].R.Num().IsInt64() || !ns[1].R.Num().IsInt64(), Classes: []string{"tri"}}
 	if closeMixed(ns) && h.ExclOn("cmp-through-float") {
 		res.Skip = "cmp-through-float"
+		return res
+	}
+	if ratioBig(ns) && h.ExclOn("ratio-bignum-longfloat") {
+		res.Skip = "ratio-bignum-longfloat"
 		return res
 	}
 	scope := slip.NewScope()
